@@ -49,6 +49,69 @@ def extract_consts():
     return (p.returncode == 0, missing)
 
 
+def rs2lean():
+    """regenerate SmVerif/Generated/Rs*.lean from the current Rust source.
+    returns dict unit -> (ok, detail); never raises"""
+    res = {}
+    try:
+        crate = os.path.join(VERIF, "tools", "rs2lean")
+        exe = os.path.join(crate, "target", "release", "rs2lean")
+        with Lock("rs2lean"):
+            if not os.path.exists(exe):
+                subprocess.run(["cargo", "build", "--release", "--offline"], cwd=crate, capture_output=True, text=True, env=ENV, timeout=1200)
+            gen = os.path.join(LEAN, "SmVerif", "Generated")
+            with Lock("lean"):
+                p = subprocess.run([exe, os.path.join(REPO, "src"), gen], capture_output=True, text=True, env=ENV, timeout=300)
+                for l in p.stdout.splitlines():
+                    parts = l.split(" ", 2)
+                    if len(parts) >= 2 and parts[0] in ("ok", "FAILED"):
+                        res[parts[1]] = (parts[0] == "ok", parts[2] if len(parts) > 2 else "")
+                        if parts[0] == "FAILED":
+                            # never leave a stale translation behind: the tie theorems must not check against old code
+                            with open(os.path.join(gen, parts[1] + ".lean"), "w") as f:
+                                f.write("/- rs2lean could not translate this unit from the current source: %s -/\n" % (parts[2] if len(parts) > 2 else "").replace("-/", "- /"))
+                if p.returncode not in (0, 2):
+                    res["<translator>"] = (False, (p.stderr or "crashed")[-300:])
+    except Exception as e:  # the tie is an addition: its machinery failing must not fail the check
+        res["<translator>"] = (False, str(e)[-300:])
+    return res
+
+
+def tie_check(prop, units):
+    """build and audit the tie theorems of a property against the regenerated code.
+    returns dict: theorems (list), ok (list), lost (list of 'theorem: reason'), functions"""
+    try:
+        import tie_table
+        entries = tie_table.tie_for(prop)
+    except Exception as e:
+        return {"theorems": [], "ok": [], "lost": ["tie table: %s" % e]}
+    if not entries:
+        return {"theorems": [], "ok": [], "lost": []}
+    mods = sorted(set(m for m, _, _ in entries))
+    built = {}
+    for m in mods:
+        okb, outb = lake_build([m], timeout=1500)
+        built[m] = okb
+        if not okb:
+            with open(os.path.join(WORK, "%s-tie-%s.log" % (prop, m.split(".")[-1])), "w") as f:
+                f.write(outb)
+    good = [(m, t) for m, t, _ in entries if built[m]]
+    aud = {}
+    if good:
+        aud, _ = audit(prop + "-tie", good)
+    ok, lost = [], []
+    for m, t, u in entries:
+        if u in units and not units[u][0]:
+            lost.append("%s: rs2lean cannot translate %s now (%s)" % (t, u, units[u][1][:120]))
+        elif not built[m]:
+            lost.append("%s: %s no longer checks against the regenerated %s" % (t, m, u))
+        elif not aud.get(t, (False, []))[0]:
+            lost.append("%s: %s" % (t, ", ".join(aud.get(t, (False, ["missing"]))[1])))
+        else:
+            ok.append(t)
+    return {"theorems": [t for _, t, _ in entries], "ok": ok, "lost": lost}
+
+
 def lake_build(targets, timeout=3000):
     """returns (ok, output)"""
     with Lock("lean"):
@@ -419,7 +482,18 @@ def run_check(mod, tier, seed, replay=None):
     except Exception as e:  # never let the fingerprinting break a check
         anchors_changed = []
         log("NOTE anchors not evaluated: %s" % e)
-    if anchors_changed and not replay:
+    # 2c. translation tie: regenerate the Lean translation of the Rust core and re-check `generated = model`
+    tie = {"theorems": [], "ok": [], "lost": []}
+    try:
+        units = rs2lean()
+        tie = tie_check(prop, units)
+        tie["units"] = {u: ("ok" if v[0] else "FAILED " + v[1][:160]) for u, v in units.items()}
+    except Exception as e:
+        tie["lost"] = ["tie machinery: %s" % e]
+    if tie["lost"] and not replay:
+        log("NOTE translation tie lost (%s): deciding on the correspondence alone, with the search widened" % "; ".join(tie["lost"])[:600])
+        anchors_changed = sorted(set(anchors_changed + ["tie:" + l.split(":")[0] for l in tie["lost"]]))
+    if anchors_changed and not replay and not all(a.startswith("tie:") for a in anchors_changed):
         log("NOTE modelled source changed since validation (%s): widening the search to the thorough generators" % ", ".join(anchors_changed))
 
     # 3. harness against /repo's working tree
@@ -510,6 +584,7 @@ def run_check(mod, tier, seed, replay=None):
 
     # 6. evidence
     ev = evidence(mod, tier, seed, t0, results, hist, len(theorems), discharged, broken_obligations, len(violations), lc_note, known=sorted(set(str(f.get("id") or f.get("key")) for f, _ in known)))
+    ev["coverage"]["translation_tie"] = {"theorems_checked_against_regenerated_code": tie.get("ok", []), "lost": tie.get("lost", []), "units": tie.get("units", {})}
     ev["coverage"]["source_anchors_changed"] = anchors_changed
     ev["coverage"]["search_widened"] = bool(anchors_changed or broken_obligations)
     write_evidence(prop, ev)
